@@ -12,6 +12,7 @@ mod c05;
 mod c06;
 mod c17;
 mod c18;
+mod c20;
 mod gen;
 mod util;
 
@@ -40,6 +41,7 @@ fn main() {
     "C06" => c06::run(&mut sink, &mut rng, thorough),
     "C17" => c17::run(&mut sink, &mut rng, thorough),
     "C18" => c18::run(&mut sink, &mut rng, thorough),
+    "C20" => c20::run(&mut sink, &mut rng, thorough),
     _ => {
       eprintln!("unknown property {}", prop);
       std::process::exit(2);
